@@ -158,7 +158,7 @@ func clipMemberSpecsAll(thorough bool) []composeSpec {
 		},
 		{
 			entry: "clip.MultiLineString", cases: mkCases("MultiLineString", func() *GeomHyp { return pts("LineString", 3) }, 0, SliceV{Nil: true}),
-			desc:  "the concatenation of the member lines' clipped pieces, in order, each member clipped once against the box",
+			desc: "the concatenation of the member lines' clipped pieces, in order, each member clipped once against the box",
 			oracles: map[string]func(*ssa.Function) oracleFunc{"clip.line": func(*ssa.Function) oracleFunc {
 				return func(it *Interp, s *State, _ []AV) [][]AV {
 					return [][]AV{{SliceV{Nil: true}}, {freshSliceOf(1, freshLine)(it, s)}, {freshSliceOf(2, freshLine)(it, s)}}
@@ -168,7 +168,7 @@ func clipMemberSpecsAll(thorough bool) []composeSpec {
 		},
 		{
 			entry: "clip.Collection", cases: mkCases("Collection", func() *GeomHyp { return pts("LineString", 2) }, 0),
-			desc:  "the members' non-nil clips, in order, each member clipped once against the box",
+			desc: "the members' non-nil clips, in order, each member clipped once against the box",
 			oracles: map[string]func(*ssa.Function) oracleFunc{"clip.Geometry": func(*ssa.Function) oracleFunc {
 				return func(it *Interp, s *State, _ []AV) [][]AV {
 					return [][]AV{{IfaceV{Nil: true}}, {IfaceV{Typ: it.p.Kind("LineString"), Val: freshLine(it, s)}}}
